@@ -37,7 +37,7 @@ def strategy(tier, phase):
     from vlib import rmodel
 
     edit = st.tuples(st.integers(0, 13), st.integers(0, 60), st.integers(0, 60), st.integers(0, 60)).map(list)
-    return st.fixed_dictionaries({"gen": st.sampled_from([2, 3, 4, 4]), "journal": st.sampled_from([False, False, False, True]), "tape": rmodel.tape_strategy(), "edits": st.lists(edit, max_size=4), "pass": st.integers(0, len(c05.PASSES) - 1),
+    return st.fixed_dictionaries({"gen": st.sampled_from([2, 3, 4, 4, 5]), "journal": st.sampled_from([False, False, False, True]), "tape": rmodel.tape_strategy(), "edits": st.lists(edit, max_size=4), "pass": st.integers(0, len(c05.PASSES) - 1),
                                   "param": st.integers(0, 7), "fault": st.sampled_from([0, 0, 0, 1, 2, 3, 4]), "gattr": st.sampled_from([False, False, False, True]), "functional": st.booleans(), "wrap": st.sampled_from([0, 0, 1, 2, 3]),
                                   # history of the pass OBJECT: it may have processed another model before (state left over from a previous call)
                                   "prelude": st.one_of(st.just([]), st.just([]), rmodel.tape_strategy(100)),
